@@ -1096,14 +1096,471 @@ def spec():
              "ok": SPEC["bad"] == 0, "n": SPEC["n"], "worst_residual": SPEC["worst"], "detail": SPEC["detail"]}]
 
 
+# ============================================================================================= extension: MPO conversions
+# (model `lean/YaqsModel/Model/MpoConv.lean`, theorems `to_matrix_entry`, `dense_eq_sparse`, `from_matrix_roundtrip_exact`,
+#  `from_matrix_step_error`, `compress_sweep_invariant`, `compress_terminates_shapes` of Props/C07.lean)
+#
+# value ties   conv-tomat / conv-tomatpath / conv-tosparse : every entry of the real to_matrix / to_sparse_matrix of random small
+#              rational MPOs (mixed bond dimensions, zero blocks, physical dimension 2 and 3) vs the model's contraction loop, the
+#              bond path sum at the digits of the row / column index, and the block-wise Kronecker accumulation
+#              conv-custom / conv-rotate / conv-identity / conv-tomps / conv-valid : the index maps of the small helpers
+#              conv-plan : the `_compress_one_sweep` calls `compress` makes (trace), incl. its ValueErrors
+# replay ties  conv-frommat : the real from_matrix with np.linalg.svd wrapped; the model replays it from (u, s, vh) of every call:
+#              every matrix handed to SVD and every tensor compared entrywise; conv-frommat-err : its ValueErrors
+#              conv-sweep : one real `_compress_one_sweep` likewise (every two-site matrix, every tensor after the sweep)
+# spec tie     LAPACK SVD on every matrix these two functions decompose (reconstruction, isometries, order)
+# oracles      dense = sparse; from_matrix error^2 = sum of discarded weights; two-site block changes by exactly the discarded
+#              weight in every step of a sweep; bond dimensions after a sweep within [1, cap], chain valid.
+
+SVDSPEC = {"n": 0, "bad": 0, "worst": 0.0, "detail": ""}
+EXT_KINDS = {"conv", "convfm", "convfmerr", "convsweep", "convplan", "convops", "convct"}
+
+
+def gen_ext(rng, tier):
+    quick = tier == "quick"
+
+    def sub():
+        return rng.randrange(1 << 30)
+
+    n = {"quick": 30, "thorough": 300, "search": 60}.get(tier, 30)
+    for _ in range(n + n // 3):
+        yield {"kind": "conv", "sub": sub()}
+    for _ in range(n):
+        yield {"kind": "convfm", "sub": sub()}
+        yield {"kind": "convsweep", "sub": sub()}
+    for dirs in ("lr", "rl", "lr_rl", "rl_lr", "both", "LR", ""):
+        for ns in (0, 1, 2, 3, -1):
+            if dirs in ("lr", "rl", "lr_rl", "rl_lr") or ns in (1, -1):
+                yield {"kind": "convplan", "ns": ns, "dirs": dirs, "sub": sub()}
+    for _ in range(12 if quick else 40):
+        yield {"kind": "convfmerr", "sub": sub()}
+        yield {"kind": "convops", "sub": sub()}
+        yield {"kind": "convops", "sub": sub()}
+
+
+def cexact(z) -> str:
+    return cstr(z)
+
+
+def arr_tokens(a) -> str:
+    return " ".join(cexact(z) for z in np.asarray(a, dtype=complex).reshape(-1))
+
+
+def site_tokens(t) -> str:
+    """tensor in the MPO layout (d, d, Dl, Dr)"""
+    return f"{t.shape[0]} {t.shape[2]} {t.shape[3]} " + arr_tokens(t)
+
+
+def show_site(t) -> str:
+    return f"t {t.shape[0]} {t.shape[2]} {t.shape[3]} " + arr_tokens(t)
+
+
+def show_mat(m) -> str:
+    m = np.asarray(m)
+    return f"m {m.shape[0]} {m.shape[1]} " + arr_tokens(m)
+
+
+def dec_tokens(u, s, vh) -> str:
+    return f"{u.shape[0]} {len(s)} {vh.shape[1]} {arr_tokens(u)} {ib.fracs([float(v) for v in s])} {arr_tokens(vh)}"
+
+
+@contextlib.contextmanager
+def capture_svd(rec, hook=None):
+    """wrap np.linalg.svd: record (matrix, u, s, vh) of every call and spec-tie the result"""
+    orig = np.linalg.svd
+
+    def wrapper(a, *args, **kw):
+        if hook is not None:
+            hook()
+        u, s, vh = orig(a, *args, **kw)
+        a = np.array(a, dtype=complex)
+        scale = max(1.0, float(np.linalg.norm(a)))
+        e1 = float(np.linalg.norm(u @ np.diag(s) @ vh - a)) / scale
+        e2 = float(np.linalg.norm(u.conj().T @ u - np.eye(u.shape[1])))
+        e3 = float(np.linalg.norm(vh @ vh.conj().T - np.eye(vh.shape[0])))
+        good = e1 < 1e-9 and e2 < 1e-9 and e3 < 1e-9 and bool(np.all(s >= 0)) and bool(np.all(np.diff(s) <= 1e-13 * scale))
+        SVDSPEC["n"] += 1
+        SVDSPEC["worst"] = max(SVDSPEC["worst"], e1, e2, e3)
+        if not good:
+            SVDSPEC["bad"] += 1
+            SVDSPEC["detail"] = f"recon {e1:.2e} UhU {e2:.2e} VVh {e3:.2e} s={s[:6]}"
+        rec.append((a, np.array(u), np.array(s, dtype=float), np.array(vh)))
+        return u, s, vh
+
+    np.linalg.svd = wrapper
+    try:
+        yield
+    finally:
+        np.linalg.svd = orig
+
+
+def rational_mpo(rng, L, d, bd, complex_=True, zero_blocks=True):
+    """tensors in the caller layout (left, right, phys, phys) with small dyadic entries (all float arithmetic on them exact)"""
+    blocks = []
+    for i in range(L):
+        t = np.zeros((bd[i], bd[i + 1], d, d), dtype=complex)
+        for l in range(bd[i]):
+            for r in range(bd[i + 1]):
+                if zero_blocks and bd[i] * bd[i + 1] > 1 and rng.random() < 0.25:
+                    continue
+                for a in range(d):
+                    for b in range(d):
+                        if rng.random() < 0.25:
+                            continue
+                        re = rng.randrange(-6, 7) / 4
+                        im = rng.randrange(-4, 5) / 4 if complex_ and rng.random() < 0.4 else 0.0
+                        t[l, r, a, b] = complex(re, im)
+        blocks.append(t)
+    return blocks
+
+
+def run_conv(inp):
+    rng = random.Random(inp["sub"])
+    d = rng.choice([2, 2, 3])
+    L = rng.choice([1, 2, 2, 3, 3, 4] if d == 2 else [1, 2, 2, 3])
+    bd = [1] + [rng.choice([1, 2, 2, 3]) for _ in range(L - 1)] + [1]
+    blocks = rational_mpo(rng, L, d, bd)
+    transpose = rng.random() < 0.7
+    m = MPO()
+    if transpose:
+        m.custom([b.copy() for b in blocks], transpose=True)
+    else:
+        m.custom([np.transpose(b, (2, 3, 0, 1)).copy() for b in blocks], transpose=False)
+    out = []
+    k = rng.randrange(L)
+    if transpose:
+        out.append({"req": f"custom {d} {bd[k]} {bd[k + 1]} | {arr_tokens(blocks[k])}", "impl": show_site(m.tensors[k]), "oracle": None,
+                    "kind": "conv-custom", "sig": f"custom:{d}:{bd[k]}:{bd[k + 1]}"})
+    sites = " | ".join(site_tokens(t) for t in m.tensors)
+    dense = m.to_matrix()
+    sparse = m.to_sparse_matrix()
+    probs = []
+    dd = float(np.linalg.norm(sparse.toarray() - dense)) if sparse.shape == dense.shape else float("inf")
+    if dd > 1e-12:
+        probs.append(f"to_sparse_matrix differs from to_matrix by {dd:.2e} on a rational MPO (d={d}, bonds={bd})")
+    # model-independent: entry at (row, col) is the bond path sum at the big-endian digits of row / col
+    for _ in range(4):
+        sg = [rng.randrange(d) for _ in range(L)]
+        sp = [rng.randrange(d) for _ in range(L)]
+        row = int("".join(map(str, sg)), d) if L else 0
+        col = int("".join(map(str, sp)), d) if L else 0
+        v = np.ones((1,), dtype=complex)
+        for i in range(L):
+            v = v @ blocks[i][:, :, sg[i], sp[i]]
+        if abs(dense[row, col] - v[0]) > 1e-12:
+            probs.append(f"to_matrix()[{row},{col}] = {dense[row, col]} but the bond path sum at digits {sg},{sp} is {v[0]}")
+    sig = f"{d}:{bd}:{transpose}"
+    nz = bool(np.any(dense))
+    out.append({"req": f"tomat | {sites}", "impl": show_mat(dense), "oracle": ok(probs, f"dense-sparse {dd:.1e}"), "kind": "conv-tomat",
+                "sig": "tomat:" + sig, "nontrivial": nz})
+    out.append({"req": f"tomatpath | {sites}", "impl": show_mat(dense), "oracle": None, "kind": "conv-tomatpath", "sig": "tomatpath:" + sig,
+                "nontrivial": nz})
+    out.append({"req": f"tosparse {m.physical_dimension} {m.length} | {sites}", "impl": show_mat(sparse.toarray()), "oracle": None,
+                "kind": "conv-tosparse", "sig": "tosparse:" + sig, "nontrivial": nz})
+    return out
+
+
+def run_convfm(inp):
+    rng = random.Random(inp["sub"])
+    nprng = np.random.default_rng(inp["sub"])
+    d = rng.choice([2, 2, 2, 3])
+    n = rng.choice([1, 2, 3, 3, 4] if d == 2 else [1, 2, 2, 3])
+    dim = d**n
+    kind = rng.choice(["dense", "dense", "dyadic", "lowrank", "product", "zero", "mpo"])
+    if kind == "dense":
+        m = nprng.normal(size=(dim, dim)) + 1j * nprng.normal(size=(dim, dim))
+    elif kind == "dyadic":
+        m = nprng.integers(-4, 5, size=(dim, dim)) / 4 + 1j * (nprng.integers(-2, 3, size=(dim, dim)) / 2)
+    elif kind == "lowrank":
+        r = rng.choice([1, 2])
+        m = sum(np.outer(nprng.normal(size=dim), nprng.normal(size=dim)) for _ in range(r)) + 0j
+    elif kind == "product":
+        m = np.eye(1)
+        for _ in range(n):
+            m = np.kron(m, nprng.normal(size=(d, d)))
+        m = m + 0j
+    elif kind == "zero":
+        m = np.zeros((dim, dim), dtype=complex)
+    else:
+        L = n
+        bd = [1] + [rng.choice([1, 2]) for _ in range(L - 1)] + [1]
+        mm = MPO()
+        mm.custom(rational_mpo(rng, L, d, bd, zero_blocks=False), transpose=True)
+        m = mm.to_matrix()
+    cutoff = rng.choice([1e-12, 1e-12, 0.0, 1e-14, 0.3, 1.0])
+    cap = rng.choice([None, None, None, 1, 2, 3])
+    rec = []
+    with capture_svd(rec):
+        mpo = MPO.from_matrix(m, d, max_bond=cap, cutoff=cutoff)
+    req = (f"frommat {d} {dim} {dim} {ib.frac(cutoff)} {'none' if cap is None else cap} | {arr_tokens(m)}"
+           + "".join(" | " + dec_tokens(u, s, vh) for (_, u, s, vh) in rec))
+    impl = " ".join([show_mat(x) for (x, _, _, _) in rec] + [show_site(t) for t in mpo.tensors])
+    # oracle: squared change = sum over the steps of the discarded weights (exact round trip when nothing is discarded)
+    probs = []
+    back = mpo.to_matrix()
+    bonds = [t.shape[3] for t in mpo.tensors[:-1]]
+    disc = sum(float(np.sum(s[r:] ** 2)) for (_, _, s, _), r in zip(rec, bonds))
+    err2 = float(np.linalg.norm(back - m) ** 2) if back.shape == m.shape else float("nan")
+    scale = 1 + float(np.linalg.norm(m) ** 2)
+    if back.shape != m.shape:
+        probs.append(f"from_matrix round trip shape {back.shape} != {m.shape}")
+    elif len(rec) == len(bonds) and abs(err2 - disc) > 1e-9 * scale:
+        probs.append(f"from_matrix(d={d}, n={n}, cutoff={cutoff}, max_bond={cap}, {kind}): |M - back|^2 = {err2:.6e} but the discarded "
+                     f"weights add up to {disc:.6e}")
+    if mpo.length != n or len(mpo.tensors) != n:
+        probs.append(f"from_matrix returned length {mpo.length} / {len(mpo.tensors)} tensors for n = {n}")
+    return {"req": req, "impl": impl, "oracle": ok(probs, f"err2 {err2:.2e} discarded {disc:.2e} bonds {bonds}"), "kind": "conv-frommat",
+            "sig": f"frommat:{d}:{n}:{kind}:{cutoff}:{cap}:{bonds}", "nontrivial": n > 1}
+
+
+def run_convfmerr(inp):
+    rng = random.Random(inp["sub"])
+    mode = rng.choice(["nonsquare", "d0", "d1", "nonpower", "one", "ok"])
+    if mode == "nonsquare":
+        d, rows, cols = 2, rng.choice([2, 4]), rng.choice([3, 8])
+    elif mode == "d0":
+        d, rows, cols = rng.choice([0, -1]), 2, 2
+    elif mode == "d1":
+        d = 1
+        rows = cols = rng.choice([1, 1, 2, 3])
+    elif mode == "nonpower":
+        d = rng.choice([2, 3])
+        rows = cols = rng.choice([3, 5, 6, 7, 10, 12]) if d == 2 else rng.choice([2, 4, 6, 8, 10])
+    elif mode == "one":
+        d, rows, cols = rng.choice([2, 3]), 1, 1
+    else:
+        d = rng.choice([2, 3])
+        rows = cols = d
+    m = np.arange(rows * cols, dtype=float).reshape(rows, cols) / 4
+    try:
+        mpo = MPO.from_matrix(m, d)
+        impl = show_site(mpo.tensors[0]) if len(mpo.tensors) == 1 else f"len {len(mpo.tensors)}"
+    except ValueError:
+        impl = "ValueError"
+    dd = max(d, 0)
+    return {"req": f"frommat {dd} {rows} {cols} 1/1000000000000 none | {arr_tokens(m)}", "impl": impl, "oracle": None,
+            "kind": "conv-frommat-err", "sig": f"fmerr:{mode}:{d}:{rows}:{cols}", "nontrivial": impl == "ValueError"}
+
+
+def two_site_matrix(a, b):
+    th = np.einsum("stlr,uvrw->lstuvw", a, b)
+    d, dl, dr = a.shape[0], a.shape[2], b.shape[3]
+    return th.reshape(dl * d * d, d * d * dr)
+
+
+def run_convsweep(inp):
+    rng = random.Random(inp["sub"])
+    nprng = np.random.default_rng(inp["sub"])
+    d = rng.choice([2, 2, 3])
+    L = rng.choice([1, 2, 3, 3, 4] if d == 2 else [2, 3])
+    src = rng.choice(["random", "random", "dyadic", "heis"])
+    if src == "heis" and d == 2 and L >= 2:
+        m = MPO.heisenberg(L, rng.uniform(-1, 1), rng.uniform(-1, 1), rng.uniform(-1, 1), rng.uniform(-1, 1), n_sweeps=0)
+    else:
+        bd = [1] + [rng.choice([1, 2, 3]) for _ in range(L - 1)] + [1]
+        if src == "dyadic":
+            blocks = rational_mpo(rng, L, d, bd, zero_blocks=False)
+        else:
+            blocks = [nprng.normal(size=(bd[i], bd[i + 1], d, d)) + 1j * nprng.normal(size=(bd[i], bd[i + 1], d, d)) for i in range(L)]
+        m = MPO()
+        m.custom(blocks, transpose=True)
+    direction = rng.choice(["lr", "rl"])
+    tol = rng.choice([1e-12, 1e-12, 1e-9, 0.1, 0.5, 2.0])
+    cap = rng.choice([None, None, 1, 2])
+    before = [t.copy() for t in m.tensors]
+    dense_before = m.to_matrix()
+    rec, snaps = [], []
+    with capture_svd(rec, hook=lambda: snaps.append([t.copy() for t in m.tensors])):
+        m._compress_one_sweep(direction=direction, tol=tol, max_bond_dim=cap)  # noqa: SLF001
+    snaps.append([t.copy() for t in m.tensors])
+    req = (f"sweep {direction} {ib.frac(tol)} {'none' if cap is None else cap} | " + " | ".join(site_tokens(t) for t in before)
+           + " | decs" + "".join(" | " + dec_tokens(u, s, vh) for (_, u, s, vh) in rec))
+    impl = " ".join([show_mat(x) for (x, _, _, _) in rec] + [show_site(t) for t in m.tensors])
+    # oracles
+    probs = []
+    order = list(range(L - 1)) if direction == "lr" else list(range(L - 2, -1, -1))
+    # (a different number / order of SVD calls is a matter for the tie, not a property failure: the per-step checks below
+    #  need to know which bond a call belongs to and are skipped then)
+    aligned = len(rec) == len(order)
+    total_disc = 0.0 if aligned else float("nan")
+    for j, (k, (x, u, s, vh)) in enumerate(zip(order, rec) if aligned else []):
+        after = snaps[j + 1]
+        keep = after[k].shape[3]
+        new = two_site_matrix(after[k], after[k + 1])
+        diff2 = float(np.linalg.norm(x - new) ** 2)
+        disc = float(np.sum(s[keep:] ** 2))
+        total_disc += disc
+        if abs(diff2 - disc) > 1e-9 * (1 + float(np.linalg.norm(x) ** 2)):
+            probs.append(f"step {j} (bond {k},{k + 1}) of the {direction} sweep changed the two-site block by {diff2:.6e}, discarded weight {disc:.6e}")
+        if keep < 1 or (cap is not None and keep > max(cap, 1)) or keep > len(s):
+            probs.append(f"step {j}: kept {keep} of {len(s)} values with cap {cap}")
+        for i, (t0, t1) in enumerate(zip(snaps[j], after)):
+            if i not in (k, k + 1) and (t0.shape != t1.shape or np.any(t0 != t1)):
+                probs.append(f"step {j} (bond {k},{k + 1}) modified tensor {i}")
+    try:
+        m.check_if_valid_mpo()
+        if m.tensors[0].shape[2] != before[0].shape[2] or m.tensors[-1].shape[3] != before[-1].shape[3]:
+            probs.append("outer bond changed by the sweep")
+    except AssertionError:
+        probs.append("MPO invalid after the sweep")
+    dense_after = m.to_matrix()
+    dd = float(np.linalg.norm(dense_after - dense_before))
+    if aligned and total_disc < 1e-20 and dd > 1e-9 * (1 + float(np.linalg.norm(dense_before))):
+        probs.append(f"nothing was discarded but the {direction} sweep changed the operator by {dd:.3e}")
+    bonds = [t.shape[3] for t in m.tensors[:-1]]
+    return {"req": req, "impl": impl, "oracle": ok(probs, f"change {dd:.2e} discarded {total_disc:.2e} bonds {bonds}"),
+            "kind": "conv-sweep", "sig": f"sweep:{d}:{L}:{src}:{direction}:{tol}:{cap}:{bonds}", "nontrivial": L > 1}
+
+
+def run_convplan(inp):
+    rng = random.Random(inp["sub"])
+    n_sweeps = inp["ns"] if "ns" in inp else rng.choice([0, 1, 1, 2, 3, -1])
+    directions = inp["dirs"] if "dirs" in inp else rng.choice(["lr", "rl", "lr_rl", "rl_lr", "lr_rl", "rl_lr", "both", "LR", ""])
+    m = MPO.ising(rng.choice([1, 2, 3]), 1.0, 0.5, n_sweeps=0)
+    calls = []
+    orig = MPO._compress_one_sweep  # noqa: SLF001
+
+    def spy(self, *, direction, tol, max_bond_dim):
+        calls.append(direction)
+        return orig(self, direction=direction, tol=tol, max_bond_dim=max_bond_dim)
+
+    MPO._compress_one_sweep = spy  # noqa: SLF001
+    try:
+        try:
+            m.compress(n_sweeps=n_sweeps, directions=directions)
+            impl = " ".join(calls) or "empty"
+        except ValueError:
+            impl = "ValueError"
+    finally:
+        MPO._compress_one_sweep = orig  # noqa: SLF001
+    dtok = directions if directions else "-"
+    return {"req": f"plan {n_sweeps} {dtok}", "impl": impl, "oracle": None, "kind": "conv-plan", "sig": f"plan:{n_sweeps}:{directions}",
+            "nontrivial": bool(calls)}
+
+
+def run_convops(inp):
+    rng = random.Random(inp["sub"])
+    mode = rng.choice(["rotate", "rotate", "identity", "tomps", "valid", "valid"])
+    d = rng.choice([2, 3])
+    if mode == "rotate":
+        bd = [rng.choice([1, 2, 3]), rng.choice([1, 2])]
+        t = np.transpose(rational_mpo(rng, 1, d, bd, zero_blocks=False)[0], (2, 3, 0, 1)).copy()
+        conj = rng.random() < 0.5
+        m = MPO()
+        m.tensors = [t.copy()]
+        m.rotate(conjugate=conj)
+        return {"req": f"rotate {int(conj)} | {site_tokens(t)}", "impl": show_site(m.tensors[0]), "oracle": None, "kind": "conv-rotate",
+                "sig": f"rotate:{d}:{bd}:{conj}"}
+    if mode == "identity":
+        L = rng.randrange(0, 5)
+        m = MPO()
+        m.identity(L, physical_dimension=d)
+        impl = " ".join(show_site(t) for t in m.tensors) or "empty"
+        return {"req": f"identity {L} {d}", "impl": impl, "oracle": None, "kind": "conv-identity", "sig": f"identity:{L}:{d}", "nontrivial": L > 0}
+    if mode == "tomps":
+        bd = [rng.choice([1, 2]), rng.choice([1, 2, 3])]
+        t = np.transpose(rational_mpo(rng, 1, d, bd, zero_blocks=False)[0], (2, 3, 0, 1)).copy()
+        m = MPO()
+        m.tensors = [t.copy()]
+        m.length = 1
+        mps = m.to_mps()
+        x = mps.tensors[0]
+        impl = f"p {x.shape[0]} {x.shape[1]} {x.shape[2]} " + arr_tokens(x)
+        return {"req": f"tomps | {site_tokens(t)}", "impl": impl, "oracle": None, "kind": "conv-tomps", "sig": f"tomps:{d}:{bd}"}
+    L = rng.randrange(0, 5)
+    bd = [rng.choice([1, 2]) for _ in range(L + 1)]
+    shapes = [(d, bd[i] if rng.random() < 0.8 else bd[i] + 1, bd[i + 1]) for i in range(L)]
+    m = MPO()
+    m.tensors = [np.zeros((dd, dd, l, r), dtype=complex) for (dd, l, r) in shapes]
+    try:
+        impl = "1" if m.check_if_valid_mpo() else "0"
+    except AssertionError:
+        impl = "AssertionError"
+    except IndexError:
+        impl = "IndexError"
+    req = "valid" + "".join(f" | {dd} {l} {r}" for (dd, l, r) in shapes)
+    return {"req": req, "impl": impl, "oracle": None, "kind": "conv-valid", "sig": f"valid:{L}:{impl}", "nontrivial": L > 1}
+
+
+KEY_CT = "C07:transmon:object-dtype"
+
+
+def run_convct(inp):
+    """NOT generated (it fails on the tree as it is): `MPO.coupled_transmon` returns tensors of dtype object, so
+    `to_sparse_matrix()` raises for every length and `compress()` raises for every length > 1.  Run it through a corpus file
+    `{"kind": "convct", "L": 3, "dq": 2, "dr": 2}` once the finding is registered under KEY_CT."""
+    L, dq, dr = inp.get("L", 3), inp.get("dq", 2), inp.get("dr", 2)
+    m = MPO.coupled_transmon(L, dq, dr, 1.0, 0.9, -0.2, 0.3)
+    dense = np.asarray(m.to_matrix(), dtype=complex)
+    probs = []
+    try:
+        sp = m.to_sparse_matrix()
+        dd = float(np.linalg.norm(sp.toarray() - dense))
+        if dd > 1e-10 * (1 + float(np.linalg.norm(dense))):
+            probs.append(f"coupled_transmon({L},{dq},{dr}): sparse and dense conversions differ by {dd:.2e}")
+    except Exception as e:  # noqa: BLE001
+        probs.append(f"coupled_transmon({L},{dq},{dr}).to_sparse_matrix() raised {type(e).__name__}: {str(e)[:80]} "
+                     f"(tensor dtype {m.tensors[0].dtype})")
+    try:
+        m.compress(tol=1e-12)
+        dd = float(np.linalg.norm(np.asarray(m.to_matrix(), dtype=complex) - dense))
+        if dd > 1e-9 * (1 + float(np.linalg.norm(dense))):
+            probs.append(f"coupled_transmon({L},{dq},{dr}).compress(tol=1e-12) changed the operator by {dd:.2e}")
+    except Exception as e:  # noqa: BLE001
+        probs.append(f"coupled_transmon({L},{dq},{dr}).compress() raised {type(e).__name__}: {str(e)[:80]}")
+    return {"req": None, "impl": None, "oracle": ok(probs, "sparse / compress fine"), "kind": "conv-transmon", "key": KEY_CT,
+            "sig": f"convct:{L}:{dq}:{dr}"}
+
+
+def run_ext(inp):
+    k = inp["kind"]
+    if k == "convct":
+        return run_convct(inp)
+    if k == "conv":
+        return run_conv(inp)
+    if k == "convfm":
+        return run_convfm(inp)
+    if k == "convfmerr":
+        return run_convfmerr(inp)
+    if k == "convsweep":
+        return run_convsweep(inp)
+    if k == "convplan":
+        return run_convplan(inp)
+    if k == "convops":
+        return run_convops(inp)
+    raise ValueError(k)
+
+
+def gen_all(rng, tier):
+    yield from gen(rng, tier)
+    yield from gen_ext(rng, tier)
+
+
+def run_all(inp):
+    if inp["kind"] in EXT_KINDS:
+        res = run_ext(inp)
+        if "corpus_file" in inp:
+            res = [dict(r, kind="corpus:" + str(r.get("kind", inp["kind"]))) for r in (res if isinstance(res, list) else [res])]
+        return res
+    return run(inp)
+
+
+def spec_all():
+    return spec() + [{"name": "LAPACK SVD on every matrix from_matrix / _compress_one_sweep decompose: u diag(s) vh = x, uᴴu = 1, vh vhᴴ = 1, "
+                              "s sorted non-negative", "ok": SVDSPEC["bad"] == 0, "n": SVDSPEC["n"], "worst_residual": SVDSPEC["worst"],
+                      "detail": SVDSPEC["detail"]}]
+
+
 if __name__ == "__main__":
-    ib.main("C07", gen, run, driver="Trotter",
+    ib.main("C07", gen_all, run_all, driver="Trotter",
             rule="gate lists of all circuit builders (chains L=1..9 x both bc, grids <= 4x4, seeded parameters/steps); terms captured "
                  "at from_pauli_sum for ising/heisenberg/hamiltonian; random Pauli term lists (repeats, identities, zero/complex "
                  "coefficients, long range, invalid) -> pre-compression bond dims, tensor entries, path sums; hand-written tables; "
-                 "distinct = distinct (builder, size, bc, step/shape) signatures",
+                 "distinct = distinct (builder, size, bc, step/shape) signatures; extension: to_matrix / to_sparse_matrix entries of random "
+                 "rational MPOs (d = 2, 3, mixed bonds, zero blocks) vs contraction loop, bond path sum at the index digits and Kronecker "
+                 "accumulation; from_matrix and one compression sweep replayed from the captured SVD factors (every SVD input, every tensor)",
             trusted_base=["qiskit gate conventions (spec-tied each run)", "numpy/scipy dense linear algebra and qiskit Operator in the oracles",
                           "Trotter convergence itself (analytic limit) is measured by step halving, not proved"],
             assumptions=["parameters handed to the model are the binary64 values the builders received, as exact rationals",
                          "±pi/2 of the basis-change rotations is compared symbolically"],
-            spec=spec)
+            spec=spec_all)
